@@ -139,14 +139,15 @@ func (c *context) SendMsg(m *protocol.Message) error {
 	c.backtrace = nil
 	c.recvPipe = nil
 	bestEffort := c.bestEffort
+	sendExpire := c.sendExpire
 	tq := nilQ
 	cq := c.closeQ
 	s.Unlock()
 
 	if bestEffort {
 		tq = closedQ
-	} else if c.sendExpire > 0 {
-		tq = time.After(c.sendExpire)
+	} else if sendExpire > 0 {
+		tq = time.After(sendExpire)
 	}
 
 	m.Header = bt
